@@ -198,22 +198,23 @@ theorem align_alphabetical (r : Res) :
 /-! ## parse ∘ print -/
 
 /-- **parse_print_partial** (clauses "a namespace expression that follows the documented grammar evaluates to ...",
-"addition, juxtaposition, division, powers ... have their documented precedence", "numerals select elements").
-For every context and every well-formed source AST `t` of the grammar *without function calls and decimal numbers* —
-sums with `+`, `-` and an optional leading minus, of fractions ` / `, of products by juxtaposition, of powers `^`
-with a signed integer or a parenthesised exponent, of unsigned integers, variables with letter / numeral indices
-(traces included) and parenthesised, jump `[ ]` and mean `{ }` sub-expressions, nested to any depth — the real
-parser's string scanning (`_Substring._find`, `split`, `isplit`, `partition_scope`, `trim`) applied to the canonical
-printing of `t` succeeds exactly when the direct elaboration `elabExpr` of the tree does, with the same operation
-tree, shape, index order and summed set.  `elabExpr` never looks at a string: it applies the bookkeeping steps
-(`trace_spec`, `alignGo`, `mergeSummed`, `verifyIndicesSummed`) in the order the grammar dictates — so e.g.
-`a b / c d` is `(a b) / (c d)`, `-a^2 + b` is `(-(a^2)) + b`, `a b^2` is `a (b^2)`.
+"addition, juxtaposition, division, powers, function calls ... have their documented precedence", "numerals select
+elements").  For every context and every well-formed source AST `t` of the documented grammar — sums with `+`, `-`
+and an optional leading minus, of fractions ` / `, of products by juxtaposition, of powers `^` with a signed integer or
+a parenthesised exponent, of unsigned integers and decimal numbers (`1.5`, `.5`, `2.`, `1e1`, `2.5e-1`), variables with
+letter / numeral indices (traces included), function calls with indices for generated axes, and parenthesised, jump
+`[ ]` and mean `{ }` sub-expressions, nested to any depth — the real parser's string scanning (`_Substring._find`,
+`split`, `isplit`, `partition`, `partition_scope`, `trim`, python `int()` / `float()` literal syntax) applied to the
+canonical printing of `t` succeeds exactly when the direct elaboration `elabExpr` of the tree does, with the same
+operation tree, shape, index order and summed set.  `elabExpr` never looks at a string: it applies the bookkeeping
+steps (`trace_spec`, `alignGo`, `mergeSummed`, `verifyIndicesSummed`) in the order the grammar dictates — so e.g.
+`a b / c d` is `(a b) / (c d)`, `-a^2 + b` is `(-(a^2)) + b`, `a b^2` is `a (b^2)`, `f_i(a_i + b_i) c` is
+`(trace of f(a + b)) c`.
 
-Full statement (`parse_print`, not proved): the same for the whole documented grammar — additionally decimal numbers
-and function calls with generated axes — and with `evalOps o = ⟦t⟧` for the whole tree (proved here for `_trace` and
-products: `trace_sem`, `term_reading`).  Missing: the call case of `parse_item` (a scope with a non-empty head; same
-technique), python float syntax on printed decimals, and the global tensor-level statement; these parts are covered
-by the correspondence streams only. -/
+"Partial" with respect to the full `parse_print`: (1) only the canonical printing (single blanks, lower-case `e`, no
+`+` in exponents) — other legal spellings are covered by the correspondence stream; (2) the tensor-level statement
+`evalOps o = ⟦t⟧` is proved for the steps that carry the index-notation reading (`trace_sem`,
+`trace_sums_exactly_repeated`, `term_reading`), not composed over whole trees. -/
 theorem parse_print_partial (Γ : Ctx) (t : Src) (h : t.ok .expr = true) :
     toOpt (parse Γ t.print) = elabExpr Γ t :=
   parse_print_core Γ t h
@@ -231,6 +232,9 @@ theorem reject_iff_elab_none (Γ : Ctx) (t : Src) (h : t.ok .expr = true) :
 /-- `-A_ij b_j + 2 (a_i)` is a well-formed tree of the core grammar -/
 example : (Src.sum true (.prod (.var ['A'] ['i', 'j']) (.pcons (.var ['b'] ['j']) .pnil))
     (.tcons false (.prod (.num [2]) (.pcons (.paren (.sum false (.prod (.var ['a'] ['i']) .pnil) .tnil)) .pnil)) .tnil)).ok .expr = true := by decide
+
+/-- `1.5 f_i(a_i)` uses a decimal number and a call with a traced generated axis -/
+example : (Src.sum false (.prod (.dec [1] (some [5]) none) (.pcons (.call ['f'] ['i'] (.sum false (.prod (.var ['a'] ['i']) .pnil) .tnil)) .pnil)) .tnil).ok .expr = true := by decide
 
 /-- `a_i b^-2 / s^(2 r)` uses fractions and both kinds of powers -/
 example : (Src.sum false (.frac (.prod (.var ['a'] ['i']) (.pcons (.powInt (.var ['b'] []) true [2]) .pnil))
